@@ -1,6 +1,8 @@
 #!/usr/bin/env python3
 """Turn the output of tools/detect_matrix.sh (summary.txt) into seeded/MATRIX.md and record the detection in each
-seeded/<id>/meta.json.   usage: tools/matrix_to_md.py <summary.txt> <repo-head> <verif-commit>"""
+seeded/<id>/meta.json.   usage: tools/matrix_to_md.py <summary.txt> <repo-head> <verif-commit> [benign]
+With `benign` the summary is the one of `SRC=benign tools/detect_matrix.sh`: benign/MATRIX.md, where an empty cell is the expected
+outcome."""
 import json
 import os
 import re
@@ -8,6 +10,7 @@ import sys
 
 HERE = os.path.dirname(os.path.dirname(os.path.abspath(__file__)))
 summary, repo_head, verif_commit = sys.argv[1:4]
+KIND = "benign" if len(sys.argv) > 4 and sys.argv[4] == "benign" else "seeded"
 rows = []
 for line in open(summary):
     parts = line.split()
@@ -20,7 +23,7 @@ for line in open(summary):
         if m:
             det[m.group(1)] = {"exit": int(m.group(2)), "rules": [x for x in m.group(3).split(",") if x]}
     rows.append((sid, det))
-out = ["# Detection matrix", "",
+out = ["# Detection matrix" if KIND == "seeded" else "# False-alarm matrix (independent behaviour-preserving refactorings)", "",
        f"Every registered quick check was run against every seeded change (patch applied to a scratch worktree of /repo at "
        f"`{repo_head}`, checks from /verif commit `{verif_commit}`, `tools/detect_matrix.sh`). A cell lists the checks that "
        f"exited 1 and the rules that reported; all other checks exited 0 (no cross-alarms). `—` = not detected: the change "
@@ -28,7 +31,7 @@ out = ["# Detection matrix", "",
        "| Seed | Property | Checks that fail (rules) | Summary of the change |", "|---|---|---|---|"]
 caught = 0
 for sid, det in rows:
-    mp = os.path.join(HERE, "seeded", sid, "meta.json")
+    mp = os.path.join(HERE, KIND, sid, "meta.json")
     meta = json.load(open(mp)) if os.path.exists(mp) else {}
     cell = "; ".join(f"{p} ({', '.join(d['rules']) or 'exit ' + str(d['exit'])})" for p, d in sorted(det.items())) or "—"
     if det:
@@ -41,6 +44,11 @@ for sid, det in rows:
                              "detected": bool(det)}
         json.dump(meta, open(mp, "w"), indent=1, ensure_ascii=False)
         open(mp, "a").write("\n")
-out += ["", f"Detected: {caught} of {len(rows)}."]
-open(os.path.join(HERE, "seeded", "MATRIX.md"), "w").write("\n".join(out) + "\n")
+if KIND == "seeded":
+    out += ["", f"Detected: {caught} of {len(rows)}."]
+else:
+    out += ["", f"Silent on all checks: {len(rows) - caught} of {len(rows)}. A non-empty cell is explained in the patch's meta.json "
+                f"(`note`) and in DESIGN.md section 8 (round 4): C19_b3 and C19_b4 move a recorded defect to a new function / "
+                f"callee, which exact-key suppression reports by design."]
+open(os.path.join(HERE, KIND, "MATRIX.md"), "w").write("\n".join(out) + "\n")
 print(f"detected {caught}/{len(rows)}")
